@@ -8,13 +8,14 @@ import json, os, shutil, subprocess, sys, time
 def sh(cmd, **kw):
     return subprocess.run(cmd, shell=isinstance(cmd, str), capture_output=True, text=True, **kw)
 
-def evaluate(pid, seeds=("1",)):
-    src = "/tmp/seed/%s/out" % pid
-    dst = "/verif/seeded/%s" % pid
+def evaluate(pid, seeds=("1",), rnd=1):
+    src = ("/tmp/seed/%s/out" if rnd == 1 else "/tmp/seed2/%s/out") % pid
+    dst = ("/verif/seeded/%s" if rnd == 1 else "/verif/seeded/%s/round2") % pid
     if not os.path.exists(os.path.join(src, "patch.diff")):
         print(pid, "no patch.diff"); return None
     if os.path.isdir(dst):
         shutil.rmtree(dst)
+    os.makedirs(os.path.dirname(dst), exist_ok=True)
     shutil.copytree(src, dst, ignore=shutil.ignore_patterns("_build", "*.o", "a.out"))
     # drop compiled demo binaries
     for root, _, files in os.walk(dst):
@@ -69,5 +70,10 @@ def evaluate(pid, seeds=("1",)):
     return caught
 
 if __name__ == "__main__":
-    for pid in sys.argv[1:]:
-        evaluate(pid, seeds=("1", "2", "3"))
+    args = sys.argv[1:]
+    rnd = 1
+    if args and args[0] == "--round":
+        rnd = int(args[1])
+        args = args[2:]
+    for pid in args:
+        evaluate(pid, seeds=("1", "2", "3"), rnd=rnd)
